@@ -49,6 +49,17 @@ func c01Session(profile, backend string) (*sm.Session, error) {
 	if err != nil {
 		return nil, err
 	}
+	// what a drop leaves behind turns into wrong query results only after the same name, index
+	// and ids are in use again: the raw keys are audited right after every drop
+	s.Hooks = []sm.Hook{func(s *sm.Session, op *cs.Op, out *cs.Outcome) *sm.Fail {
+		if s.M.Closed || (op.Kind != "dropcoll" && op.Kind != "dropindex") {
+			return nil
+		}
+		if msg := run.Audit(s.H.Raw, s.M); msg != "" {
+			return &sm.Fail{Property: "C01", Clause: "drop-residue", Detail: "raw keys after " + op.String() + ": " + msg}
+		}
+		return nil
+	}}
 	return s, nil
 }
 
